@@ -456,7 +456,9 @@ def run(tier):
         "(pack_strings) is expanded by a small pre-pass written from the stringref specification; well-formedness and value are then judged by lib/ref_cbor.py",
         "(B) inputs that jsoncons reads differently from the reference decoder, or that the reference calls ill-formed, are C07's findings: only the well-formedness of "
         "their re-encodings is judged here; MessagePack timestamps may come out as epoch_second integers or epoch_nano digit strings (both documented)",
-        "CSV: only well-formedness is judged for shapes other than an array of non-empty rows (arrays, or objects with identical member-name lists) of untagged "
+        "CSV: values nested deeper than a table (array of scalars / rows / flat objects, or object of scalars / columns) become multi-valued fields joined by "
+        "subfield_delimiter, a jsoncons extension without an RFC 4180 reading: not judged (observed: with quote_style all each subfield is quoted separately and the "
+        "default delimiter is a NUL character). Only well-formedness is judged for shapes other than an array of non-empty rows (arrays, or objects with identical member-name lists) of untagged "
         "strings / integers / booleans; rows that are a single empty field (an empty line) are abstained; the CSV encoder is not run on the 'long' alphabet. "
         "The TOON encoder is not part of this check (recorded open findings F32-F34, F71)",
     ]
